@@ -175,6 +175,10 @@ func runC04(c *Ctx) {
 	}
 	// ---- (b) realm discipline
 	checkRealmDiscipline(r, p)
+	checkWithRealmReturnsNewView(r, p, "kvstore/mapdb", "mapDB")
+	checkWithRealmReturnsNewView(r, p, "kvstore/flushkv", "flushKVStore")
+	checkWithRealmReturnsNewView(r, p, "kvstore/debug", "debugStore")
+	checkNoAppendToSharedField(r, p, "kvstore/mapdb")
 	// ---- (c) copy discipline
 	checkCopyDiscipline(r, p)
 	checkKVStoreTrustedHelpers(r, p)
